@@ -29,6 +29,8 @@ struct IWorld {
     std::unique_ptr<CoinStatsIndex> cst;
     bool running{false};
     bool nofilter{std::getenv("VERIF_C21_PROBE") != nullptr};     // diagnostic runs only: leave the block filter index out
+                                                                  // (also set once the filter index refused to start in this behaviour: its own
+                                                                  // locator then lags behind the other indexes', which the single-record model does not track)
 
     void Drain() { w.sim->m_node.validation_signals->SyncWithValidationInterfaceQueue(); }
     std::vector<BaseIndex*> All() { std::vector<BaseIndex*> v{txi.get(), spd.get(), cst.get()}; if (flt) v.push_back(flt.get()); return v; }
@@ -239,20 +241,19 @@ int ReplayTests(const std::string& path)
             std::string why, known;
             try {
                 const UniValue res = iw.Apply(a);
-                if (iw.nofilter) { R().Info(Obj({{"kind", "info"}, {"probe", iw.Probe()}, {"after", a}, {"tip", iw.w.Project()["obs"]["tip"]}})); continue; }
+                if (std::getenv("VERIF_C21_PROBE")) { R().Info(Obj({{"kind", "info"}, {"probe", iw.Probe()}, {"after", a}, {"tip", iw.w.Project()["obs"]["tip"]}})); continue; }
                 if (a[0].get_str() == "istart" && res[0].get_str() != "none") {
                     // an index refuses to start: the specification predicts this only for the block filter index after a re-creation over
-                    // a database that is ahead of its locator (known finding); anything else is a disagreement
-                    if (res[0].get_str() == "init-failed:basic block filter index" && exp["ix"]["err"].get_str() == "filter-init-height-key-taken") {
+                    // a database that is ahead of its locator (known finding; the other indexes carry on); anything else is a disagreement
+                    if (res[0].get_str() == "init-failed:basic block filter index" && exp["ix"]["ferr"].get_bool()) {
                         R().Count("filter_init_failed_after_unclean_restart");
                         R().Info(Obj({{"kind", "info"}, {"known", "blockfilterindex Init() fails: " + res[0].get_str()}, {"key", "filterindex-init-fails-after-unclean-restart"}, {"test", (uint64_t)n}, {"step", (uint64_t)i}}));
-                        R().Count("checked_steps");
+                        iw.flt->Interrupt(); iw.flt->Stop(); iw.flt.reset(); iw.nofilter = true;
+                    } else {
+                        R().Mismatch(a, "index " + res[0].get_str() + " (the specification predicts err=" + exp["ix"]["err"].get_str() + ")");
                         break;
                     }
-                    R().Mismatch(a, "index " + res[0].get_str() + " (the specification predicts " + exp["ix"]["err"].get_str() + ")");
-                    break;
-                }
-                if (a[0].get_str() == "istart" && exp["ix"]["err"].get_str() != "none") { R().Count("diverged_init_succeeded"); R().Count("checked_steps"); break; }
+                } else if (a[0].get_str() == "istart" && exp["ix"]["ferr"].get_bool()) R().Count("diverged_init_succeeded");
                 if (a[0].get_str() == "mine" && st[i].exists("r") && !st[i]["r"].isNull() && JsonDiff(st[i]["r"], res, "result") != "") { R().Count("chain_deviations"); R().Deviation(a, JsonDiff(st[i]["r"], res, "result"), iw.w.Project()); break; }
                 // the chain itself must be where the model says (otherwise the behaviour is not the model's: counted, not judged here - C08/C09)
                 const UniValue have = iw.w.Project();
